@@ -21,16 +21,18 @@ struct Case {
     layout: LayoutSpec,
     attr_perm: u64,
     bare_bool_attrs: bool,
+    /// stacked negations written `!!(x)` instead of `!(!(x))`
+    adjacent_not: bool,
 }
 
 impl Case {
     fn text(&self) -> String {
-        let marked: Vec<String> = self.rules.iter().map(|r| m_rule(r, self.attr_perm, self.bare_bool_attrs)).collect();
+        let marked: Vec<String> = self.rules.iter().map(|r| m_rule_opts(r, self.attr_perm, self.bare_bool_attrs, self.adjacent_not)).collect();
         apply_layout(&marked, &self.layout)
     }
     fn single_text(&self, i: usize) -> String {
         let spec = LayoutSpec { comments: vec![], ..self.layout.clone() };
-        apply_layout(&[m_rule(&self.rules[i], self.attr_perm, self.bare_bool_attrs)], &spec)
+        apply_layout(&[m_rule_opts(&self.rules[i], self.attr_perm, self.bare_bool_attrs, self.adjacent_not)], &spec)
     }
     fn to_json(&self) -> Json {
         json!({
@@ -38,6 +40,7 @@ impl Case {
             "layout": self.layout.to_json(),
             "attr_perm": self.attr_perm,
             "bare_bool_attrs": self.bare_bool_attrs,
+            "adjacent_not": self.adjacent_not,
             "text": self.text(),
         })
     }
@@ -47,6 +50,7 @@ impl Case {
             layout: LayoutSpec::from_json(j.get("layout")?)?,
             attr_perm: j.get("attr_perm")?.as_u64()?,
             bare_bool_attrs: j.get("bare_bool_attrs")?.as_bool()?,
+            adjacent_not: j.get("adjacent_not").and_then(|v| v.as_bool()).unwrap_or(false),
         })
     }
 }
@@ -278,6 +282,9 @@ fn tags(case: &Case, fail: &Fail) -> Vec<String> {
     if case.bare_bool_attrs {
         t.insert("bare-boolean-attribute-spelling".into());
     }
+    if case.adjacent_not {
+        t.insert("adjacent-negations".into());
+    }
     for r in &case.rules {
         let mut r2 = r.clone();
         visit_strings(&mut r2, &mut |pos, s| {
@@ -481,6 +488,9 @@ fn candidates(c: &Case) -> Vec<Case> {
     }
     if c.bare_bool_attrs {
         out.push(Case { bare_bool_attrs: false, ..c.clone() });
+    }
+    if c.adjacent_not {
+        out.push(Case { adjacent_not: false, ..c.clone() });
     }
     if c.attr_perm != 0 {
         out.push(Case { attr_perm: 0, ..c.clone() });
@@ -823,6 +833,7 @@ fn gen_case(rng: &mut Rng) -> Case {
         layout: LayoutSpec { features, mixed, seed: rng.next_u64() >> 1, comments },
         attr_perm: if rng.bool() { 0 } else { rng.next_u64() >> 1 },
         bare_bool_attrs: rng.chance(1, 4),
+        adjacent_not: rng.chance(1, 3),
     }
 }
 
@@ -844,7 +855,7 @@ fn feature_sweep() -> Vec<Case> {
             Action::Call("notify".into(), vec![Rhs::Lit(V::Str("ops".into())), Rhs::Lit(V::Int(1))]),
         ],
     };
-    let plain = |r: RuleAst, layout: LayoutSpec| Case { rules: vec![r], layout, attr_perm: 0, bare_bool_attrs: false };
+    let plain = |r: RuleAst, layout: LayoutSpec| Case { rules: vec![r], layout, attr_perm: 0, bare_bool_attrs: false, adjacent_not: false };
     let mut out = vec![plain(base.clone(), LayoutSpec::canonical())];
     // strings × positions
     let positions = ["rule-name", "description", "attribute-value", "condition", "assignment", "call-argument"];
@@ -1002,7 +1013,7 @@ impl Check for C04 {
             }
         });
         st.exhaustive.push(format!("single-feature sweep: {} files (22 hostile strings x 6 positions, 3 comment kinds x 10 texts x 12 slots, 8 layout features alone (x4 placements) and in all 28 pairs, 7 salience values, 6 attributes x 2 spellings) on one fixed rule", sweep.len()));
-        let per = cli.n(1_500, 25_000);
+        let per = cli.n(1_000, 25_000);
         shards(cli, nthreads, st, |_shard, rng, st| {
             for _ in 0..per {
                 if cli.expired() {
